@@ -3,12 +3,12 @@ CONSTANTS
   c1 = c1  c2 = c2  c3 = c3  w1 = w1  w2 = w2  rp = rp  rb = rb
   NSlab = 3  Cap = 3  Q = 1  NPkt = 3
   Clients = {c1, c2}
-  Kinds <- KPortable
+  Kinds <- KTruncMixed
   Workers = {w1}
   PReaders = {rp}
-  BReaders <- NoReaders
+  BReaders = {rb}
   B = 1  TXMax = 2
-  Inline = FALSE  BatchTX = FALSE  Drops = TRUE
+  Inline = TRUE  BatchTX = TRUE  Drops = FALSE
   ScrubTxLen = TRUE  ResetRawSA = TRUE  BothOnHandoff = FALSE
   ClearHdr = TRUE  TruncRelease = TRUE
   ResetSlot = TRUE  Opts <- ONone
